@@ -27,6 +27,12 @@ pub struct Step {
     pub stack_len_after: usize,
     pub mem_len_before: usize,
     pub mem_len_after: usize,
+    /// top of the stack after the instruction (when memory recording is on)
+    pub top_after: Option<U256>,
+    /// call-family / create instruction that handed control to the EVM: the frame's memory at that point
+    pub mem_at_call: Option<Vec<u8>>,
+    /// the frame's memory when its next instruction starts
+    pub mem_after_return: Option<Vec<u8>>,
 }
 
 #[derive(Clone, Debug, PartialEq)]
@@ -97,6 +103,10 @@ pub struct Mon {
     pub open: Vec<usize>,
     pub ip_violations: Vec<String>,
     pub max_depth_seen: u64,
+    /// C11: record memory contents around calls and the stack top after every instruction
+    pub record_mem: bool,
+    /// (journal depth, step index) of call instructions whose frame has not resumed yet
+    pub pending_calls: Vec<(u64, usize)>,
 }
 impl Mon {
     pub fn new(record_steps: bool) -> Self {
@@ -191,6 +201,19 @@ pub fn monitor_register<EXT: HasMon, DB: Database>(h: &mut EvmHandler<'_, EXT, D
             }
             m.record_steps && m.steps.len() < m.max_steps
         };
+        if rec && host.external.mon().record_mem {
+            let m = host.external.mon();
+            if let Some((d, idx)) = m.pending_calls.last().copied() {
+                if d == depth {
+                    m.pending_calls.pop();
+                    let snap = interp.shared_memory.context_memory().to_vec();
+                    m.steps[idx].mem_after_return = Some(snap);
+                } else if d > depth {
+                    // the frame that issued the call is gone (it cannot resume): drop the entry
+                    m.pending_calls.pop();
+                }
+            }
+        }
         let pre = if rec {
             let d = interp.stack.data();
             let n = d.len().min(7);
@@ -260,11 +283,26 @@ pub fn monitor_register<EXT: HasMon, DB: Database>(h: &mut EvmHandler<'_, EXT, D
                 stack_len_after: interp.stack.len(),
                 mem_len_before: ml,
                 mem_len_after: interp.shared_memory.len(),
+                top_after: None,
+                mem_at_call: None,
+                mem_after_return: None,
             };
+            let record_mem = host.external.mon().record_mem;
+            let mut s = s;
+            if record_mem {
+                s.top_after = interp.stack.data().last().copied();
+                if matches!(op, 0xf0 | 0xf1 | 0xf2 | 0xf4 | 0xf5 | 0xfa) && interp.instruction_result == InstructionResult::CallOrCreate {
+                    s.mem_at_call = Some(interp.shared_memory.context_memory().to_vec());
+                }
+            }
+            let is_call = s.mem_at_call.is_some();
             let m = host.external.mon();
             m.steps.push(s);
             let i = m.steps.len() - 1;
             m.events.push(MEv::Step(i));
+            if is_call {
+                m.pending_calls.push((depth, i));
+            }
         }
     });
 
